@@ -18,7 +18,7 @@ from vlib.rec import REC
 ID = "C11"
 LEVEL = "exploration"
 DECIDING = ["C11.assignment"]
-RULE = ("set-ups = (full grid with n_b in {1,4,8,17}, n_o in {4,12,25}, n_t in {2,3,4} incl. non-equidistant radii; second molecule with three "
+RULE = ("set-ups = (full grid with n_b in {1,4,8,17}, n_o in {4,5,7,12,25,30} (and cube3D_210/300/390 for the long trajectory), n_t in {2,3,4} incl. non-equidistant radii; second molecule with three "
         "distinct principal moments: non-planar 4-8 atoms / planar (water in both atom orders, random planar) / input/H2O.gro; metric "
         "cartesian_grid True/False; outliers included or not (flag as bool / numpy bool / 0,1); whole system shifted by up to 8 A per axis in half of the set-ups; trajectory = continuous random placements (not grid points, some beyond the "
         "outer boundary, equal-sized grids with coinciding end points but different interior radii used in one process, one long trajectory of 2200 frames per run and more in thorough) or the grid's own pseudotrajectory, some assigned twice from the same array). "
@@ -233,13 +233,13 @@ def make_second_molecule(rng, nprng, kind):
 def drive(tr, pts, io, d, rng, nprng, tier, idx, cache, force=None):
     from molgri.space.fullgrid import FullGrid
     n_b = rng.choice([1, 4, 8, 17])
-    n_o = rng.choice([4, 12, 25])
+    n_o = rng.choice([4, 5, 7, 12, 25, 30])
     t = rng.choice(["[0.2, 0.35]", "[0.2, 0.3, 0.45]", "[0.2, 0.35, 0.45]", "[0.15, 0.25, 0.35, 0.45]", "linspace(0.2, 0.5, 3)", "[1.0, 1.5, 2.5]", "[0.4, 1.2, 3.0]"])
     balg, oalg = rng.choice(["cube4D", "randomQ"]), rng.choice(["ico", "cube3D", "randomS"])
     if idx == 0 and cache.get("__long__"):
         # the long trajectory of the run is assigned on a large direction grid whose last subdivision level is only partly filled (cells of
         # very different size): a nearest-point search with a distance cut-off loses directions deep inside the largest cells
-        n_b, n_o, oalg = 1, rng.choice([210, 300, 390]), "cube3D"
+        n_b, n_o, oalg = rng.choice([4, 8]), rng.choice([210, 300, 390]), "cube3D"
     if force:
         n_b, n_o, t, balg, oalg = force["n_b"], force["n_o"], force["t"], force["balg"], force["oalg"]
     key = (balg, n_b, oalg, n_o, t)
@@ -282,6 +282,8 @@ def drive(tr, pts, io, d, rng, nprng, tier, idx, cache, force=None):
     cartesian = rng.random() < 0.5 or (idx == 0 and bool(cache.get("__long__")))
     outer = r[-1] + 0.5 * (r[-1] - r[-2])
     mode = rng.choice(["continuous", "continuous", "own_pt", "continuous_twice"]) if not force_far else "continuous"
+    if idx == 0 and cache.get("__long__"):
+        mode = "continuous"        # the run's long trajectory (frame-block boundaries at 2048) is never traded for a short one
     if mode == "own_pt":
         placements = grid.copy()
         if planar and r[-1] > 4.0:
